@@ -6,8 +6,8 @@ import XzVerif.Lemmas.MtDecLive
 namespace XzVerif.MtDec
 
 /-- Frame: queue, workers and coder->thr unchanged. -/
-theorem LiveInv.frame {s s' : State} (h : LiveInv s) (eq : s'.queue = s.queue) (ew : s'.workers = s.workers)
-    (et : s'.thr = s.thr)
+theorem LiveInv.frameThr {s s' : State} (h : LiveInv s) (eq : s'.queue = s.queue) (ew : s'.workers = s.workers)
+    (hfull : ∀ i, i < s.workers.length → (getW s i).hasOut = true → s'.thr ≠ some i → (getW s i).inFilled = (getW s i).inSize)
     (hp4 : s.pc = .init4 → s'.pc = .init4) (hp45 : (s.pc = .init4 ∨ s.pc = .init5) → (s'.pc = .init4 ∨ s'.pc = .init5))
     (h10 : s'.seq = .thrInit → (s'.pc = .init3 ∨ s'.pc = .init4 ∨ s'.pc = .init5) ∨ s'.thr = none)
     (h11 : s'.seq = .thrInit → (blk s' s'.cur).kind = .thr ∨ s'.pc = .init4 ∨ s'.pc = .init5)
@@ -41,11 +41,22 @@ theorem LiveInv.frame {s s' : State} (h : LiveInv s) (eq : s'.queue = s.queue) (
     rw [ew] at hi; rw [eg] at hpc ⊢
     exact h.snap i hi lim hpc
   · intro i hi ho ht
-    rw [ew] at hi; rw [eg] at ho ⊢; rw [et] at ht
-    exact h.full i hi ho ht
+    rw [ew] at hi; rw [eg] at ho ⊢
+    exact hfull i hi ho ht
   · intro i hi ho hb
     rw [ew] at hi; rw [eg] at ho hb ⊢
     exact h.pos i hi ho hb
+
+theorem LiveInv.frame {s s' : State} (h : LiveInv s) (eq : s'.queue = s.queue) (ew : s'.workers = s.workers)
+    (et : s'.thr = s.thr)
+    (hp4 : s.pc = .init4 → s'.pc = .init4) (hp45 : (s.pc = .init4 ∨ s.pc = .init5) → (s'.pc = .init4 ∨ s'.pc = .init5))
+    (h10 : s'.seq = .thrInit → (s'.pc = .init3 ∨ s'.pc = .init4 ∨ s'.pc = .init5) ∨ s'.thr = none)
+    (h11 : s'.seq = .thrInit → (blk s' s'.cur).kind = .thr ∨ s'.pc = .init4 ∨ s'.pc = .init5)
+    (h12 : s'.seq = .blockInit → (blk s' s'.cur).kind = .thr ∨ (blk s' s'.cur).kind = .direct)
+    (h13 : s'.seq = .thrRun → ∃ t, s'.thr = some t)
+    (h14 : (s'.pc = .init1 ∨ s'.pc = .init2 ∨ s'.pc = .rowOk .canStart true ∨ s'.pc = .rowDone .canStart OK true) →
+      s'.workers.length < s'.cfg.threadsMax ∨ s'.threadsFree ≠ []) : LiveInv s' :=
+  h.frameThr eq ew (fun i hi ho ht => h.full i hi ho (et ▸ ht)) hp4 hp45 h10 h11 h12 h13 h14
 
 def Label.liveSimple : Label → Bool
   | .rowIter _ | .assign | .enablePartial | .stopOne | .endSet | .endJoin | .getThread | .startThr | .tell | .rowOk | .hdrGot | .blockInit => false
@@ -98,5 +109,52 @@ theorem LiveInv.blockInit {s s' : State} (h : LiveInv s) (hI : Inv s) (hs : step
     (refine h.frame rfl rfl rfl ?_ ?_ ?_ ?_ ?_ ?_ ?_ <;> first
       | (intros; simp_all [rowKOf, seqOfRowK, blk]; done)
       | (intro hx; simp_all [rowKOf, seqOfRowK, blk]; done))
+
+theorem LiveInv.rowOk {s s' : State} (h : LiveInv s) (hI : Inv s) (hs : step s .rowOk = some s') : LiveInv s' := by
+  have l10 := h.thr0
+  have l11 := h.kindThr
+  have l12 := h.kindInit
+  have l13 := h.thrSome
+  have l14 := h.canGet
+  obtain ⟨c1, c2, c3, c4, c5, c6, c6a, c6b, c7, c8, c9, c10⟩ := hI.2
+  simp only [step] at hs
+  split at hs
+  case h_3 =>
+    -- SEQ_BLOCK_THR_RUN: the Block may be complete, then coder->thr is cleared
+    rename_i cs hpc
+    have hseq : s.seq = .thrRun := c5 .thrRun (by rw [hpc]; rfl)
+    split at hs
+    · cases hs
+      refine h.frame rfl rfl rfl ?_ ?_ ?_ ?_ ?_ ?_ ?_ <;> first
+        | (intros; simp_all [rowKOf, seqOfRowK, blk]; done)
+        | (intro hx; simp_all [rowKOf, seqOfRowK, blk]; done)
+    · split at hs
+      · rename_i t ht
+        split at hs
+        · cases hs
+          refine h.frame rfl rfl rfl ?_ ?_ ?_ ?_ ?_ ?_ ?_ <;> first
+            | (intros; simp_all [rowKOf, seqOfRowK, blk]; done)
+            | (intro hx; simp_all [rowKOf, seqOfRowK, blk]; done)
+        · rename_i hfl
+          cases hs
+          have htl : t < s.workers.length := c6 (by rw [hpc]; simp) t ht
+          refine h.frameThr rfl rfl ?_ ?_ ?_ ?_ ?_ ?_ ?_ ?_
+          · intro i hi ho _
+            by_cases e : s.thr = some i
+            · have : i = t := by rw [ht] at e; injection e with e; exact e.symm
+              subst this
+              have := (hI.1.wk i hi).fillLe
+              omega
+            · exact h.full i hi ho e
+          all_goals first
+            | (intros; simp_all [rowKOf, seqOfRowK, blk]; done)
+            | (intro hx; simp_all [rowKOf, seqOfRowK, blk]; done)
+      · cases hs
+  all_goals (repeat' split at hs)
+  all_goals first | (cases hs; done) | skip
+  all_goals (cases hs)
+  all_goals (refine h.frame rfl rfl rfl ?_ ?_ ?_ ?_ ?_ ?_ ?_ <;> first
+    | (intros; simp_all [rowKOf, seqOfRowK, blk]; done)
+    | (intro hx; simp_all [rowKOf, seqOfRowK, blk]; done))
 
 end XzVerif.MtDec
